@@ -471,7 +471,8 @@ impl Profile {
     }
 }
 
-const PLAIN_TAGS: &[&str] = &["a", "b", "slow", "wip"];
+// plain tags, and near-misses of the tags that mean something (exact matches only count)
+const PLAIN_TAGS: &[&str] = &["a", "b", "slow", "wip", "ab", "disallow.skipped", "allow.skipped.on.ci", "serially", "non-serial"];
 pub const DELAYS_MS: &[u64] = &[2, 5, 12];
 
 fn pct(r: &mut Rng, p: usize) -> bool {
